@@ -53,8 +53,17 @@ def _row(eng, i, group, marker, charge_marker, has_alt, name_len, comp_len, asym
     idv = eng.int(f"id{i}", 1, 999999) if "id" in focus else 1000 + i
     seq = eng.int(f"seq{i}", -999, 9999) if "seq" in focus else 17 + i
     xyz = {}
+    decimals = {}
     for k in "xyz":
-        if k in focus:
+        if k + "int" in focus or k + "dec1" in focus:
+            # other legal CIF number forms: a bare integer ("10", "-120", "0"), one decimal ("12.5")
+            decimals[k] = 0 if k + "int" in focus else 1
+            if decimals[k] == 0:
+                xyz[k] = eng.int(f"{k}i{i}", -999, 9999)
+            else:
+                xyz[k] = eng.real(f"{k}{i}")
+                eng.assume(And(xyz[k] > -9999, xyz[k] < 99999))
+        elif k in focus:
             xyz[k] = eng.real(f"{k}{i}")
             eng.assume(And(xyz[k] > -9999, xyz[k] < 99999))
         else:
@@ -70,13 +79,13 @@ def _row(eng, i, group, marker, charge_marker, has_alt, name_len, comp_len, asym
     v["label_seq_id"] = format(i + 1, "d")  # the 1-based entity index: NOT the residue number of the PDB encoding
     v["pdbx_PDB_ins_code"] = name("ins", 1, ALPHA_ONE, "A") if has_ins else ("?" if marker == "." else marker)
     for k in "xyz":
-        v[f"Cartn_{k}"] = format(xyz[k], ".3f")
+        v[f"Cartn_{k}"] = format(xyz[k], ".3f") if k not in decimals else (format(xyz[k], "d") if decimals[k] == 0 else format(xyz[k], ".1f"))
     v["occupancy"] = "1.00"
     v["B_iso_or_equiv"] = "20.00"
     v["type_symbol"] = "C"
     v["pdbx_formal_charge"] = charge_marker
     v["pdbx_PDB_model_num"] = model
-    want = dict(serial=idv, name=v["label_atom_id"], alt=v["label_alt_id"] if has_alt else "", res=v["label_comp_id"], chain=v["auth_asym_id"], seq=seq, ins=v["pdbx_PDB_ins_code"] if has_ins else "", x=xyz["x"], y=xyz["y"], z=xyz["z"], group=group)
+    want = dict(serial=idv, name=v["label_atom_id"], alt=v["label_alt_id"] if has_alt else "", res=v["label_comp_id"], chain=v["auth_asym_id"], seq=seq, ins=v["pdbx_PDB_ins_code"] if has_ins else "", x=xyz["x"], y=xyz["y"], z=xyz["z"], group=group, tol={k: {None: 0.0005, 0: 0.0, 1: 0.05}[decimals.get(k)] + 1e-9 for k in "xyz"})
     widths = {k: len(v[f"Cartn_{k}"]) for k in "xyz"}
     return v, want, widths, len(v["id"]), len(v["auth_seq_id"])
 
@@ -138,7 +147,7 @@ def h_atom_site(eng, group, marker, charge_marker, has_alt, name_len, comp_len, 
             eng.check(type(a).__name__ == w["group"], "record-type")
             ok = And(core.same(a.serial, w["serial"]), _seq(a.name, w["name"]), _seq(a.alt_loc, w["alt"]), _seq(a.res_name, w["res"]), _seq(a.chain_id, w["chain"]), core.same(a.res_seq, w["seq"]), _seq(a.ins_code, w["ins"]))
             eng.check(ok, "identity-fields", note=f"row {i}: PDB record built from the mmCIF row differs from the same atom in PDB columns: {a.original_text!r}")
-            eng.check(And(*[core.close(getattr(a, k), w[k], 0.0005 + 1e-9) for k in "xyz"]), "coordinates", note=f"row {i}: coordinates differ: {a.original_text!r}")
+            eng.check(And(*[core.close(getattr(a, k), w[k], w["tol"][k]) for k in "xyz"]), "coordinates", note=f"row {i}: coordinates differ: {a.original_text!r}")
 
 
 def _case(**kw):
@@ -151,7 +160,7 @@ def obligations(tier):
     cases = []
     # inside the region where the pinned reader is expected to work
     for group in ("ATOM", "HETATM"):
-        for focus in (["id"], ["seq"], ["x", "y"], ["z"]):
+        for focus in (["id"], ["seq"], ["x", "y"], ["z"], ["xint", "zdec1"], ["yint"]):
             for name_len in (1, 2, 3):
                 for comp_len in (1, 2, 3):
                     if tier == "quick" and (name_len, comp_len) not in ((1, 3), (3, 1), (2, 2), (3, 3)):
